@@ -31,6 +31,7 @@ RULE = (
     "(markup and whitespace aside); the final snippet numbers lines consecutively, marks exactly the failing line "
     "(= tb_lineno) and shows every line made of single-line tokens verbatim; ignored files absent from the stack listing "
     "unless debug. Highlighter alone over every .py in the repository, 300 standard-library modules and the generated "
+    "Also: exceptions that were never raised; messages and names ending in 2-4 backslashes; comment lines ending in a backslash; a continuation line holding only a backslash; solution texts that are not valid markup. "
     "modules. non-trivial = exception with a file-backed failing frame below depth 1 or a markup / multi-line message; "
     "distinct by (source shape, position, statement, message class, verbosity, flags)."
 )
